@@ -25,6 +25,10 @@ func drainThesIter(r *Report, where string, it segment.ThesaurusIterator) ([]str
 			return out, false
 		}
 		if e == nil {
+			// a finished enumeration stays finished
+			if e2, err := it.Next(); err != nil || e2 != nil {
+				r.Fail("thes-iter-after-end", "%s: call after the end of the term enumeration returned %v, %v", where, e2, err)
+			}
 			return out, true
 		}
 		out = append(out, e.Term)
@@ -154,6 +158,9 @@ func CheckThesaurus(r *Report, tag string, seg segment.Segment, m *model.Seg, o 
 						break
 					}
 					if s == nil {
+						if s2, err := it.Next(); err != nil || s2 != nil {
+							r.Fail("thes-iter-after-end", "%s: term %q: call after the last synonym returned %v, %v", where, term, s2, err)
+						}
 						break
 					}
 					seen[model.SynHit{Syn: s.Term(), Doc: s.Number()}]++
